@@ -61,7 +61,7 @@ type Case struct {
 
 var addrs = []string{"reg.example.com", "localhost:5000", "legacy.io"}
 var otherKeys = []string{"other.example.org", "https://index.docker.io/v1/", "https://legacy.io/v1/", "http://legacy.io", "10.0.0.1:443"}
-var fieldVals = []string{"", "alice", "p@ss:w:rd", "with space", `q"uo'te`, "<>& ", "пароль-密码-🔑", strings.Repeat("k", 4096), "a\\b\tc", "\x00lead", "trail\x00", "\x00", "mid\x00dle"}
+var fieldVals = []string{"", "alice", "p@ss:w:rd", "with space", `q"uo'te`, "<>& ", "пароль-密码-🔑", strings.Repeat("k", 4096), "a\\b\tc", "\x00lead", "trail\x00", "\x00", "mid\x00dle", "s3cr:et\n", "cr\r", "crlf\r\n", "\nlead"}
 var userVals = []string{"", "alice", "bob smith", `q"uo`, "ユーザー", "colon:name"}
 
 func genCred(t *rapid.T, label string) Cred {
@@ -620,6 +620,9 @@ func cloneWithout(doc map[string]any, addr string) map[string]any {
 type CrashCase struct {
 	Doc  Doc  `json:"doc"`
 	Step Step `json:"step"`
+	// NoDir: the directory of the config file does not exist yet (first save on a
+	// fresh machine); implies that there is no old document
+	NoDir bool `json:"noDir,omitempty"`
 }
 
 func crashLeg(t *testing.T, env vt.Env) ([]byte, *vt.Fail) {
@@ -641,6 +644,10 @@ func crashLeg(t *testing.T, env vt.Env) ([]byte, *vt.Fail) {
 			c.Step.Cred.User = "alice"
 		}
 		c.Step.Cred.Pass = trunc(c.Step.Cred.Pass)
+		if c.Step.Op == "put" && rapid.IntRange(0, 3).Draw(t, "noDir") == 0 {
+			c.NoDir = true
+			c.Doc = Doc{Absent: true}
+		}
 		return c
 	})
 	for i := 0; i < pairs; i++ {
@@ -683,10 +690,16 @@ func runCrash(c CrashCase, child string) (res vt.Result, fail *vt.Fail) {
 	os.MkdirAll(dir, 0o700)
 	path := filepath.Join(dir, "config.json")
 	old := c.Doc.render()
+	if c.NoDir {
+		old = nil
+	}
 	restore := func() {
 		ents, _ := os.ReadDir(dir)
 		for _, e := range ents {
 			os.Remove(filepath.Join(dir, e.Name()))
+		}
+		if c.NoDir {
+			os.RemoveAll(dir)
 		}
 		if old != nil {
 			os.WriteFile(path, old, 0o600)
@@ -774,7 +787,10 @@ func runCrash(c CrashCase, child string) (res vt.Result, fail *vt.Fail) {
 		// every other faulted run is followed by the caller's retry of the same call
 		retried := k%4 >= 2
 		sc.Retry = retried
-		exit, err := r.RunFaulted(sc, pt, errno)
+		// a full disk does not heal: for write(2) the fault also comes in the form
+		// "this call and every later one of its kind fails"
+		persistent := pt.Syscall == "write" && !retried
+		exit, err := r.RunFaultedFrom(sc, pt, errno, persistent)
 		sc.Retry = false
 		if err != nil {
 			// the runtime itself may abort on a failed call it depends on: not judged
